@@ -330,7 +330,8 @@ pub fn finish(ctx: &Ctx, mut stats: Stats, report: Report) -> i32 {
         let _ = std::fs::create_dir_all(&rdir);
         for v in unknown.iter().take(8) {
             let path = rdir.join(format!("{:016x}.json", hash_str(&v.sig)));
-            let body = json!({"property": ctx.id, "seed": ctx.seed, "tier": ctx.tier.name(), "signature": v.sig, "detail": v.detail});
+            let body = json!({"property": ctx.id, "seed": ctx.seed, "tier": ctx.tier.name(), "threads": ctx.threads, "signature": v.sig, "detail": v.detail,
+                              "reproduce": format!("VERIF_SEED={} VERIF_THREADS={} ./check {} {}", ctx.seed, ctx.threads, ctx.id, ctx.tier.name())});
             let _ = std::fs::write(&path, serde_json::to_string_pretty(&body).unwrap());
             println!("VIOLATION property={} replay={}", ctx.id, path.display());
             println!("    signature: {}", v.sig);
@@ -353,4 +354,84 @@ pub fn finish(ctx: &Ctx, mut stats: Stats, report: Report) -> i32 {
     }
     println!("HELD property={} on everything observed", ctx.id);
     0
+}
+
+// ---------------------------------------------------------------------------------------------
+// replay
+
+/// `./check <ID> --replay <file>`: re-executes the recorded witness against the current tree.
+/// Targeted for witnesses over the term algebra (text + operator table + expected term);
+/// every other witness is reproduced by re-running the monitor with the recorded seed, tier
+/// and thread count (all monitors are deterministic in these) and looking for the signature.
+pub fn replay(id: &str, path: &str, verif_dir: &std::path::Path) -> i32 {
+    let Ok(txt) = std::fs::read_to_string(path) else {
+        println!("INCONCLUSIVE property={id} reason=cannot read replay file {path}");
+        return 2;
+    };
+    if !path.ends_with(".json") {
+        println!("{txt}");
+        println!("INCONCLUSIVE property={id} reason=crash witness: reproduce with the command recorded above");
+        return 2;
+    }
+    let Ok(v) = serde_json::from_str::<Value>(&txt) else {
+        println!("INCONCLUSIVE property={id} reason=replay file is not JSON");
+        return 2;
+    };
+    let d = &v["detail"];
+    if d["kind"] == "tree-case" {
+        if let (Some(text), Some(table), Some(path_name), Some(want)) = (d["text"].as_str(), d["table"].as_str().and_then(crate::sym::parse_table_desc), d["path"].as_str(), d["expected_term_mod_AC"].as_str()) {
+            crate::sym::install(&table);
+            let comm = crate::tree::comm_slots(&table);
+            let r = crate::sympaths::run_path(crate::sympaths::PATHS.iter().find(|p| **p == path_name).copied().unwrap_or("flat"), text);
+            let want_vars: Vec<String> = d["expected_variables"].as_array().map(|a| a.iter().filter_map(|x| x.as_str().map(|s| s.to_string())).collect()).unwrap_or_default();
+            println!("text: {text}\ntable: {}\npath: {path_name}", crate::sym::table_desc(&table));
+            return match r {
+                Ok(o) => {
+                    let got = format!("{:?}", crate::tree::ac_norm(&o.val, &comm));
+                    println!("observed variables {:?}, term (mod AC) {got}\nexpected variables {want_vars:?}, term (mod AC) {want}", o.vars);
+                    if got == want && o.vars == want_vars {
+                        println!("HELD property={id} on the replayed witness");
+                        0
+                    } else {
+                        println!("VIOLATION property={id} replay={path}");
+                        1
+                    }
+                }
+                Err(f) => {
+                    println!("observed {}: {}", f.kind(), f.msg());
+                    println!("VIOLATION property={id} replay={path}");
+                    1
+                }
+            };
+        }
+    }
+    // generic: deterministic re-run
+    let (seed, tier, threads, sig) = (v["seed"].as_u64().unwrap_or(1), v["tier"].as_str().unwrap_or("quick").to_string(), v["threads"].as_u64().unwrap_or(16), v["signature"].as_str().unwrap_or("").to_string());
+    println!("re-running: VERIF_SEED={seed} VERIF_THREADS={threads} vmon {id} {tier}  (looking for signature {sig:?})");
+    let exe = std::env::current_exe().expect("own path");
+    let out = std::process::Command::new(exe).arg(id).arg(&tier).env("VERIF_SEED", seed.to_string()).env("VERIF_THREADS", threads.to_string()).env("VERIF_DIR", verif_dir).output();
+    match out {
+        Ok(o) => {
+            let so = String::from_utf8_lossy(&o.stdout);
+            if so.lines().any(|l| l.trim_start().starts_with("signature: ") && l.contains(&sig)) {
+                println!("the recorded witness violates again");
+                println!("VIOLATION property={id} replay={path}");
+                1
+            } else if o.status.code() == Some(1) {
+                println!("the monitor reports violations, but not this signature (it may be hidden behind the 8-witness print limit)");
+                println!("VIOLATION property={id} replay={path}");
+                1
+            } else if o.status.code() == Some(0) {
+                println!("HELD property={id}: the recorded witness no longer violates");
+                0
+            } else {
+                println!("INCONCLUSIVE property={id} reason=re-run ended with {:?}", o.status.code());
+                2
+            }
+        }
+        Err(e) => {
+            println!("INCONCLUSIVE property={id} reason=cannot re-run: {e}");
+            2
+        }
+    }
 }
